@@ -31,7 +31,48 @@ pub fn exercise_v1(h: &v1::Header<'_>) -> u64 {
     let _ = c == *h && o == *h;
     let _ = write!(sink, "{}{:?}", h.addresses, h.addresses);
     let _ = h.addresses.protocol();
-    12
+    // less travelled surface: clone_from in every borrowed / owned combination, pretty Debug,
+    // format specs with flags, a sink that formats while it is being written to
+    let mut slot = o.clone();
+    slot.clone_from(h);
+    let _ = slot.protocol().len() + slot.addresses_str().len();
+    let mut slot = OTHER_V1.with(|x| x.clone());
+    slot.clone_from(&o);
+    let _ = slot.protocol().len() + slot.addresses_str().len();
+    let _ = slot == o;
+    sink.clear();
+    let _ = write!(sink, "{:#?}{:>4}{:<120}{:+}{:08}{:.3}{:^9.2}", h, h.addresses, h.addresses, h.addresses, h.addresses, h.addresses, h);
+    let mut re = Reentrant { inner: String::new(), addr: h.addresses, depth: 0 };
+    let _ = write!(re, "{}", h.addresses);
+    let _ = write!(re, "{}", h);
+    20
+}
+
+thread_local! {
+    /// an owned v1 header of another kind, the target of `clone_from`
+    pub static OTHER_V1: v1::Header<'static> = v1::Header::try_from("PROXY TCP4 9.8.7.6 5.4.3.2 10 20\r\n").map(|h| h.to_owned()).unwrap_or_else(|_| v1::Header::new("PROXY UNKNOWN\r\n", v1::Addresses::Unknown).to_owned());
+}
+
+/// A sink whose `write_str` itself formats an address value (a logger that decorates each
+/// chunk, say): formatting must not hold per-thread state across calls into the sink.
+pub struct Reentrant {
+    pub inner: String,
+    pub addr: v1::Addresses,
+    pub depth: u32,
+}
+impl Write for Reentrant {
+    fn write_str(&mut self, s: &str) -> std::fmt::Result {
+        if self.depth < 1 {
+            self.depth += 1;
+            let t = self.addr.to_string();
+            let mut nested = Reentrant { inner: String::new(), addr: self.addr, depth: self.depth };
+            let _ = write!(nested, "{}", self.addr);
+            self.depth -= 1;
+            self.inner.push_str(&t[..t.len().min(1)]);
+        }
+        self.inner.push_str(s);
+        Ok(())
+    }
 }
 
 pub fn exercise_v1_err(e: &v1::ParseError) -> u64 {
@@ -93,7 +134,49 @@ pub fn exercise_tlvs(t: v2::TypeLengthValues<'_>) -> Result<u64, u64> {
     for _ in 0..3 {
         let _ = it.next();
     }
-    Ok(calls + 3)
+    // the rest of the Iterator surface, on fresh copies and on a partly consumed copy: whatever
+    // these return (C11 judges that), they must return - also for absurd arguments
+    // (iteration is known to be finite at this point, so the consuming adapters terminate);
+    // long sections take this part one time in sixteen
+    if n > 2048 && (n + items) % 16 != 0 {
+        return Ok(calls + 3);
+    }
+    sink.clear();
+    if n <= 2048 {
+        let _ = write!(sink, "{:#?}", t);
+    }
+    for n in [0usize, 1, 2, 7, usize::MAX / 3, usize::MAX / 3 + 1, usize::MAX / 2 + 1, usize::MAX - 1, usize::MAX] {
+        let mut c = t;
+        let _ = c.nth(n);
+        let _ = c.next();
+        let mut c = t;
+        let _ = c.next();
+        let _ = c.nth(n);
+        calls += 4;
+    }
+    let _ = t.size_hint();
+    let _ = t.count();
+    let _ = t.last();
+    let _ = t.fold(0usize, |a, r| a + r.map(|x| x.len()).unwrap_or(1));
+    let _ = t.skip(usize::MAX).next();
+    let _ = t.skip(2).count();
+    let _ = t.step_by(usize::MAX).count();
+    let _ = t.step_by(2).last();
+    let _ = t.take(1).count() + t.skip_while(|r| r.is_ok()).count();
+    let _ = t.filter_map(|r| r.ok()).map(|x| x.len()).max();
+    let mut part = t;
+    let _ = part.next();
+    let _ = part.size_hint();
+    let _ = part.by_ref().take(1).count();
+    let _ = part.count();
+    let mut part = t;
+    let _ = part.next();
+    let _ = part.last();
+    let mut part = t;
+    let _ = part.next();
+    part.for_each(|_| {});
+    let _ = t == part && t.clone() == t;
+    Ok(calls + 3 + 22)
 }
 
 pub fn exercise_v2(h: &v2::Header<'_>) -> Result<u64, u64> {
@@ -118,9 +201,31 @@ pub fn exercise_v2(h: &v2::Header<'_>) -> Result<u64, u64> {
     let _ = o.tlv_bytes().len() + o.address_bytes().len();
     let c = h.clone();
     let _ = c == *h;
+    let mut slot = OTHER_V2.with(|x| x.clone());
+    slot.clone_from(h);
+    let _ = slot.length() + slot.address_bytes().len() + slot.tlv_bytes().len();
+    let _ = slot == *h;
+    let mut slot = OTHER_V2.with(|x| x.clone());
+    slot.clone_from(&o);
+    let _ = slot.address_family();
+    if h.len() < 200 {
+        sink.clear();
+        let _ = write!(sink, "{:#?}{:>300}{:+}{:.2}", h, h, h, h);
+        let _ = write!(sink, "{:?}{:#?}", h.addresses, h.addresses);
+    }
     let a = exercise_tlvs(h.tlvs())?;
     let b = exercise_tlvs(o.tlvs())?;
-    Ok(18 + a + b)
+    Ok(26 + a + b)
+}
+
+thread_local! {
+    /// an owned v2 header of another family, the target of `clone_from`
+    pub static OTHER_V2: v2::Header<'static> = {
+        let mut b = spec::v2::SIG.to_vec();
+        b.extend_from_slice(&[0x21, 0x11, 0, 15, 1, 2, 3, 4, 5, 6, 7, 8, 0, 80, 1, 187, 4, 0, 0]);
+        let b: &'static [u8] = Box::leak(b.into_boxed_slice());
+        v2::Header::try_from(b).map(|h| h.to_owned()).expect("fixed valid header")
+    };
 }
 
 pub fn exercise_v2_err(e: &v2::ParseError) -> u64 {
